@@ -1494,6 +1494,19 @@ class AbsInt:
                 continue
             if k == 'call':
                 name = callee_name(t)
+                if name == '<fn pointer>' and t['callee'].get('indirect'):
+                    # the pointer's value is known on this path (`binary_operator(op)` spliced in, `op` decided by the arm):
+                    # the call is a call of that function
+                    fv = self.eval_op(env, t['callee']['indirect'])
+                    for _ in range(4):
+                        if isinstance(fv, tuple) and fv and fv[0] == 'cast':
+                            fv = fv[1]
+                    if isinstance(fv, tuple) and fv and fv[0] == 'fn':
+                        name = fv[1]
+                        tj = self.facts.fns.get(name)
+                        t = dict(t, callee={'path': name, 'resolved': name, 'local': tj is not None, 'resolved_local': tj is not None,
+                                            'krate': 'nederlang' if tj is not None else None, 'resolved_kind': 'Item', 'devirtualized': 'path',
+                                            'unsafe': bool(tj.j.get('unsafe')) if tj is not None else False, 'generic_args': '[]'})
                 argvals = tuple(self.eval_op(env, a) for a in t['args'])
                 dkey = self.resolve_key(env, t['dest'])
                 path.calls.append((b, name, argvals, dkey, t))
